@@ -196,6 +196,13 @@ class PythonTypesBackend(CodeBackend):
             package=self.args.package,
         )
 
+    @classmethod
+    def process_doc(cls, doc, handler):
+        # Docs are emitted inside triple-quoted docstrings: keep their text from
+        # ending the literal or forming escape sequences.
+        text = super().process_doc(doc, handler)
+        return text.replace('\\', '\\\\').replace('"""', '\\"\\"\\"')
+
     def _docf(self, tag, val):
         """
         Callback used as the handler argument to process_docs(). This converts
